@@ -95,7 +95,8 @@ def crashMonStep (w : CrMon) (ws : List String) : CrMon × String :=
             let cs' : CrSess := { cs with pre := spec, post := spec, inflight := none, savedPre := saved, savedPost := saved,
                                           hiPre := (if usePost then cs.hiPost else cs.hiPre), hiPost := (if usePost then cs.hiPost else cs.hiPre),
                                           resumed := (if cs.tainted then cs.resumed else some r.windowInner),   -- a tainted store stays attributed to the crash that tainted it
-                                          inHyp := (if usePost then cs.inHyp else cs.inHypPre), inHypPre := (if usePost then cs.inHyp else cs.inHypPre),   -- the hypothesis status of the state adopted
+                                          inHyp := (if usePost then cs.inHyp else (cs.inHypPre && decide (ms = values cs.pre.msgs))),   -- the hypothesis status of the state adopted
+                                          inHypPre := (if usePost then cs.inHyp else (cs.inHypPre && decide (ms = values cs.pre.msgs))),
                                           dead := cs.dead || (cs.kind == "filens" && mode == "power"),
                                           tainted := cs.tainted || bad.any (· ≠ "counter_neither_before_nor_after") || (cs.kind == "filens" && mode == "power") }
             (alSet w sid cs', verdict (withCtx r.window bad))
